@@ -5,7 +5,7 @@ From Coq Require Import ZArith Reals List Bool Lra.
 From Flocq Require Import Core.
 From Rubato.Model Require Import Num Reals Base Async.
 From Rubato.Gen Require Import FastGen SincGen.
-From Rubato.Proofs Require Import StepperR RampsR MalformedP FastInR SincInR.
+From Rubato.Proofs Require Import StepperR RampsR MalformedP FastInR SincInR FastOutR SincOutR.
 Import ListNotations.
 Local Open Scope R_scope.
 
@@ -122,7 +122,26 @@ Theorem C06_sinc_in_step_call_R : forall env rc (s : @astate CR SR (@SincFixedIn
     sC s' = sC s /\ sCmax s' = sCmax s /\ sratio s' = sratio s /\ sL s' = sL s.
 Proof. exact si_call_step_R. Qed.
 
+(** the fixed-output types after ANY accepted non-ramped change: exactly chunk_size frames spaced 1/new from the first
+    one; the carried position is  old + chunk/new - consumed  -- nothing skipped or repeated across the boundary *)
+Theorem C06_fast_out_step_call_R : forall d blen (s : @astate CR SR (@FastFixedOut CR)) wi wo m,
+  fo_wfe blen s -> a_precheck (@fo_arch CR SR d) s wi wo m = Ok tt ->
+  exists (s' : @astate CR SR (@FastFixedOut CR)) outs,
+    pib (@fo_arch CR SR d) s wi wo m = Ok (s', (oneeded s, oC s), outs) /\ fo_wfe blen s' /\
+    oli s' = oli s + IZR (oC s) * / oratio s - IZR (oneeded s) /\
+    oC s' = oC s /\ oratio s' = oratio s /\ (0 <= oneeded s)%Z.
+Proof. exact fo_call_wfe_R. Qed.
+Theorem C06_sinc_out_step_call_R : forall env blen (s : @astate CR SR (@SincFixedOut CR)) wi wo m,
+  so_wfe env blen s -> a_precheck (@so_arch CR SR env) s wi wo m = Ok tt ->
+  exists (s' : @astate CR SR (@SincFixedOut CR)) outs,
+    pib (@so_arch CR SR env) s wi wo m = Ok (s', (uneeded s, uC s), outs) /\ so_wfe env blen s' /\
+    uli s' = uli s + IZR (uC s) * / uratio s - IZR (uneeded s) /\
+    uC s' = uC s /\ uCmax s' = uCmax s /\ uratio s' = uratio s /\ uL s' = uL s /\ (0 <= uneeded s)%Z.
+Proof. exact so_call_wfe_R. Qed.
+
 Print Assumptions C06_instants_fixed_in_R.
+Print Assumptions C06_fast_out_step_call_R.
+Print Assumptions C06_sinc_out_step_call_R.
 Print Assumptions C06_sinc_in_step_call_R.
 Print Assumptions C06_fast_in_step_call_R.
 Print Assumptions C06_increment_fixed_in_R.
